@@ -1638,7 +1638,9 @@ def Mandatory(cls, **_kwargs):
         kwargs['type_name'] = '%s%s%s' % (const.MANDATORY_PREFIX,
                                     cls.get_type_name(), const.MANDATORY_SUFFIX)
     kwargs.update(_kwargs)
-    if issubclass(cls, Unicode):
+    if issubclass(cls, Unicode) and 'min_len' not in kwargs \
+                                             and cls.Attributes.min_len < 1:
+        # never loosen a stricter bound, never override an explicit one
         kwargs.update(dict(min_len=1))
 
     retval = cls.customize(**kwargs)
